@@ -159,10 +159,74 @@ def different_registrations():
     return out
 
 
+REQUEST_KINDS = ["bindReq", "searchReq", "extReq"]
+RESPONSE_KINDS = ["bindResp", "searchEntry", "searchRef", "searchDone", "extResp"]
+
+
+def vary(rng, j):
+    """the same message with other field values: every control gets another value / criticality payload, every text and octet field changes"""
+    m = copy.deepcopy(j)
+    for c in m.get("controls", []):
+        if "raw" in c and c["k"] in ("showDeleted", "showDeactivated"):
+            c["raw"] = None if c["raw"] is not None else "010203"
+        elif c["k"] == "generic":
+            c["value"] = None if c.get("value") is not None else "0a0b"
+        elif c["k"] == "paged":
+            c["size"] = c["size"] + 1
+    return m
+
+
+def shared_results(ctx, hist):
+    """a message decoded by one session must not change when ANOTHER session decodes a similar message afterwards (decoded objects, their
+    controls, filters and lists are the caller's results, not shared instances)"""
+    rng = ctx.rng
+    out = []
+    o = M.PackingOptions()
+    for n in range(ctx.scale(600, 8000)):
+        side = rng.choice(["server", "client"])
+        kind = rng.choice(REQUEST_KINDS if side == "server" else RESPONSE_KINDS)
+        j = gen.g_msg(rng, kind, depth=2)
+        j["id"] = 1
+        if not j.get("controls") or rng.random() < 0.5:
+            j["controls"] = [gen.g_control(rng) for _ in range(rng.choice([1, 2]))]
+        j2 = vary(rng, j) if rng.random() < 0.7 else dict(gen.g_msg(rng, kind, depth=2), id=1)
+        try:
+            x, y = C.msg_from_json(j).pack(o), C.msg_from_json(j2).pack(o)
+        except BaseException:  # noqa: BLE001
+            continue
+
+        def fresh():
+            if side == "server":
+                return sansldap.LDAPServer()
+            c = sansldap.LDAPClient()
+            c.search_request("", filter=None) if kind.startswith("search") else (c.bind_simple("", "") if kind == "bindResp" else c.extended_request("1.2"))
+            c.data_to_send()
+            return c
+
+        try:
+            a, b = fresh(), fresh()
+            ra = a.receive(x)
+            at_time = [C.msg_to_json(m) for m in ra]
+            b.receive(y)
+            now = [C.msg_to_json(m) for m in ra]
+        except sansldap.LDAPError:
+            hist["shared-results:rejected"] += 1
+            continue
+        hist["shared-results:pairs"] += 1
+        if now != at_time:
+            out.append({"key": None, "what": "a message object returned by receive() to one session was changed afterwards when another session "
+                        "decoded a similar message (decoded objects are shared between sessions)", "side": side,
+                        "first_session_bytes": x.hex(), "second_session_bytes": y.hex(), "at_time": at_time, "now": now})
+            if len(out) >= 5:
+                break
+    return out
+
+
 def run(ctx):
     rng = ctx.rng
     violations = registration_semantics() + different_registrations()
     hist = collections.Counter()
+    violations += shared_results(ctx, hist)
     distinct = set()
     n_groups = ctx.scale(60, 1500)
     all_reqs = []
@@ -181,7 +245,16 @@ def run(ctx):
             merged.append((i, hs[i][idx[i]]))
             idx[i] += 1
         reqs = [q for _, q in merged]
-        replies = drive.run_impl(copy.deepcopy(reqs))
+        names = sorted({q["name"] for q in reqs if "name" in q})
+        tail = [{"op": "retained", "name": n} for n in names]
+        replies = drive.run_impl(copy.deepcopy(reqs) + tail)
+        for q, rep in zip(tail, replies[len(reqs):]):
+            hist["retained-messages-rechecked"] += rep.get("retained", 0)
+            if rep.get("changed"):
+                violations.append({"key": None, "what": "a message object returned by receive() to one session was changed afterwards by operations "
+                                   "of another session (results are shared between sessions)", "history": reqs, "session": q["name"],
+                                   "changed": rep["changed"]})
+        replies = replies[: len(reqs)]
         per = [[] for _ in range(k)]
         for (i, q), rep in zip(merged, replies):
             per[i].append(rep)
@@ -226,7 +299,9 @@ def run(ctx):
         "distinct_nontrivial": len(distinct),
         "rule": "groups of 2-3 independent client/server histories (calls, drains, deliveries, crafted messages that use the three custom types of "
                 "harness/custom_types.py, registrations of every subset of them) interleaved in random order in one interpreter; each session's replies "
-                "must equal the replies of the same history run alone in a fresh interpreter, and the Lean model's; plus a direct test of the registration "
+                "must equal the replies of the same history run alone in a fresh interpreter, and the Lean model's; every message object receive() "
+                "handed out is re-serialised at the end of the interleaved run and must be unchanged; pairs of fresh sessions decode a message and a "
+                "variant of it (other control values) and the first result must not change; plus a direct test of the registration "
                 "clause (registered session decodes the type, duplicate registration raises ValueError, unregistered and later-created sessions treat "
                 "the same bytes as an unknown type), in both orders; distinct = distinct interleavings",
         "samples": samples,
